@@ -357,9 +357,11 @@ theorem getDefault_unsetDefault (s : St) (o : Nat) (db : String) (o' : Nat) (db'
     · right; intro hd; exact h ⟨by rw [← he.1, ho], by rw [← he.2, hd]⟩
     · left; exact ho
 
-/-- `getFirstBut`: the id of another stored mapping of the database, if there is one -/
-theorem getFirstBut_some {s : St} (h : Inv s) {o : Nat} {db : String} {skip f : Nat}
-    (hf : getFirstBut s o db skip = some f) :
+/-- `getFirstBut`: the id of another stored mapping of the database, if there is one
+    (needs only the key order of the records and the index correspondence) -/
+theorem getFirstBut_some {s : St} (hs : Sorted s.recs)
+    (hidx : ∀ o db id, (o, db, id) ∈ s.idx ↔ ∃ m ∈ s.recs, m.ID = id ∧ m.OrganizationID = o ∧ m.Database = db)
+    {o : Nat} {db : String} {skip f : Nat} (hf : getFirstBut s o db skip = some f) :
     f ≠ skip ∧ ∃ x ∈ s.recs, x.ID = f ∧ x.OrganizationID = o ∧ x.Database = db := by
   unfold getFirstBut at hf
   have hmem := List.mem_of_head? hf
@@ -367,23 +369,24 @@ theorem getFirstBut_some {s : St} (h : Inv s) {o : Nat} {db : String} {skip f : 
   obtain ⟨⟨⟨o', db', id⟩, ⟨hm, ho, hdb⟩, hid⟩, _, hne⟩ := hmem
   simp only at ho hdb hid
   subst ho hdb hid
-  obtain ⟨x, hx, h1, h2, h3⟩ := (h.idx _ _ _).mp hm
+  obtain ⟨x, hx, h1, h2, h3⟩ := (hidx _ _ _).mp hm
   exact ⟨hne, x, hx, h1, h2, h3⟩
 
-theorem getFirstBut_none {s : St} (h : Inv s) {o : Nat} {db : String} {skip : Nat}
-    (hf : getFirstBut s o db skip = none) :
+theorem getFirstBut_none {s : St} (hs : Sorted s.recs)
+    (hidx : ∀ o db id, (o, db, id) ∈ s.idx ↔ ∃ m ∈ s.recs, m.ID = id ∧ m.OrganizationID = o ∧ m.Database = db)
+    {o : Nat} {db : String} {skip : Nat} (hf : getFirstBut s o db skip = none) :
     ∀ x ∈ s.recs, x.OrganizationID = o → x.Database = db → x.ID = skip := by
   unfold getFirstBut at hf
   rw [List.head?_eq_none_iff] at hf
   intro x hx ho hdb
-  have hidx := (h.idx o db x.ID).mpr ⟨x, hx, rfl, ho, hdb⟩
+  have hidx' := (hidx o db x.ID).mpr ⟨x, hx, rfl, ho, hdb⟩
   have hin : x.ID ∈ sortIds ((s.idx.filter fun e => e.1 == o && e.2.1 == db).map (·.2.2)) := by
     rw [mem_sortIds]
     simp only [List.mem_map, List.mem_filter, Bool.and_eq_true, beq_iff_eq]
-    exact ⟨(o, db, x.ID), ⟨hidx, rfl, rfl⟩, rfl⟩
+    exact ⟨(o, db, x.ID), ⟨hidx', rfl, rfl⟩, rfl⟩
   have := List.filter_eq_nil_iff.mp hf x.ID hin
   simp only [Bool.and_eq_true, bne_iff_ne, ne_eq, not_and, Decidable.not_not] at this
-  exact this (by rw [(getRec_iff h).mpr ⟨hx, rfl⟩]; rfl)
+  exact this (by unfold getRec; rw [(find_id_iff hs).mpr ⟨hx, rfl⟩]; rfl)
 
 end Influx.DBRP
 
@@ -568,9 +571,298 @@ theorem create_inv {s : St} (h : Inv s) (m0 : Mapping) (h0 : m0.ID = 0) (hv : m0
         · simp only [hdef, Bool.false_eq_true, ↓reduceIte]
           by_cases hmd : m0.Default = true
           · simp only [hmd, ↓reduceIte]
-            exact inv_add h { m0 with ID := s.nextID } rfl hv huniq _ rfl rfl rfl rfl rfl (Or.inr rfl)
+            exact inv_add h { m0 with ID := s.nextID, Default := true } rfl hv huniq _ rfl rfl rfl rfl rfl (Or.inr rfl)
           · simp only [hmd, Bool.false_eq_true, ↓reduceIte]
-            refine inv_add h { m0 with ID := s.nextID } rfl hv huniq _ rfl rfl rfl rfl rfl (Or.inl ⟨rfl, ?_⟩)
+            refine inv_add h { m0 with ID := s.nextID, Default := false } rfl hv huniq _ rfl rfl rfl rfl rfl (Or.inl ⟨rfl, ?_⟩)
             simpa [Option.isSome_iff_ne_none, Option.isNone_iff_eq_none] using hdef
+
+end Influx.DBRP
+
+namespace Influx.DBRP
+
+/-! ### `Update` keeps the invariant -/
+
+/-- replacing the record `r` by `m'` (same id, organization, database) -/
+theorem inv_replace {s : St} (h : Inv s) {r m' : Mapping} (hr : r ∈ s.recs) (hid : m'.ID = r.ID)
+    (ho : m'.OrganizationID = r.OrganizationID) (hdb : m'.Database = r.Database) (hv : m'.Virtual = false)
+    (huniq : ∀ v ∈ s.recs, v.ID ≠ r.ID → v.OrganizationID = r.OrganizationID → v.Database = r.Database →
+      v.RetentionPolicy ≠ m'.RetentionPolicy)
+    (s' : St) (hrecs : s'.recs = insertRec m' s.recs) (hidx : s'.idx = s.idx) (hby : s'.byOrg = s.byOrg)
+    (hbk : s'.buckets = s.buckets) (hnx : s'.nextID = s.nextID)
+    (hdefs : s'.defs = s.defs ∨ ∃ f, s'.defs = (setDefault s r.OrganizationID r.Database f).defs ∧
+      ∃ x ∈ s'.recs, x.ID = f ∧ x.OrganizationID = r.OrganizationID ∧ x.Database = r.Database) :
+    Inv s' := by
+  have hmem : ∀ x, x ∈ s'.recs ↔ x = m' ∨ (x ∈ s.recs ∧ x.ID ≠ r.ID) := by
+    intro x; rw [hrecs, mem_insertRec h.sorted, hid]
+  -- every old record has a successor with the same id, organization and database
+  have hsucc : ∀ x ∈ s.recs, ∃ y ∈ s'.recs, y.ID = x.ID ∧ y.OrganizationID = x.OrganizationID ∧ y.Database = x.Database := by
+    intro x hx
+    by_cases hxr : x.ID = r.ID
+    · have := sorted_id_inj h.sorted hx hr hxr
+      subst this
+      exact ⟨m', (hmem m').mpr (Or.inl rfl), hid, ho, hdb⟩
+    · exact ⟨x, (hmem x).mpr (Or.inr ⟨hx, hxr⟩), rfl, rfl, rfl⟩
+  have hpred : ∀ y ∈ s'.recs, ∃ x ∈ s.recs, y.ID = x.ID ∧ y.OrganizationID = x.OrganizationID ∧ y.Database = x.Database := by
+    intro y hy
+    rcases (hmem y).mp hy with rfl | ⟨hy, _⟩
+    · exact ⟨r, hr, hid, ho, hdb⟩
+    · exact ⟨y, hy, rfl, rfl, rfl⟩
+  have hgd : ∀ o db, getDefault s' o db = getDefault s o db ∨
+      ∃ f, getDefault s' o db = (if o = r.OrganizationID ∧ db = r.Database then some f else getDefault s o db) ∧
+        ∃ x ∈ s'.recs, x.ID = f ∧ x.OrganizationID = r.OrganizationID ∧ x.Database = r.Database := by
+    intro o db
+    rcases hdefs with hd | ⟨f, hd, hx⟩
+    · exact Or.inl (getDefault_congr hd o db)
+    · exact Or.inr ⟨f, by rw [getDefault_congr hd o db, getDefault_setDefault], hx⟩
+  refine ⟨by rw [hrecs]; exact sorted_insertRec h.sorted, ?_, ?_, by rw [hidx]; exact h.idxND, ?_, by rw [hby]; exact h.byOrgND,
+    ?_, ?_, ?_, by rw [hnx]; exact h.nextOdd, by rw [hbk]; exact h.bucketsEven⟩
+  · intro x hx
+    rcases (hmem x).mp hx with rfl | ⟨hx, _⟩
+    · have := h.recOK r hr; rw [hnx, hid]; exact ⟨this.1, this.2.1, hv⟩
+    · rw [hnx]; exact h.recOK x hx
+  · intro o db id
+    rw [hidx, h.idx]
+    constructor
+    · rintro ⟨x, hx, h1, h2, h3⟩
+      obtain ⟨y, hy, e1, e2, e3⟩ := hsucc x hx
+      exact ⟨y, hy, by rw [e1, h1], by rw [e2, h2], by rw [e3, h3]⟩
+    · rintro ⟨y, hy, h1, h2, h3⟩
+      obtain ⟨x, hx, e1, e2, e3⟩ := hpred y hy
+      exact ⟨x, hx, by rw [← e1, h1], by rw [← e2, h2], by rw [← e3, h3]⟩
+  · intro o id
+    rw [hby, h.byOrg]
+    constructor
+    · rintro ⟨x, hx, h1, h2⟩
+      obtain ⟨y, hy, e1, e2, _⟩ := hsucc x hx
+      exact ⟨y, hy, by rw [e1, h1], by rw [e2, h2]⟩
+    · rintro ⟨y, hy, h1, h2⟩
+      obtain ⟨x, hx, e1, e2, _⟩ := hpred y hy
+      exact ⟨x, hx, by rw [← e1, h1], by rw [← e2, h2]⟩
+  · intro o db id hg
+    rcases hgd o db with hh | ⟨f, hh, x, hx, h1, h2, h3⟩
+    · rw [hh] at hg
+      obtain ⟨x, hx, e1, e2, e3⟩ := h.defSome o db id hg
+      obtain ⟨y, hy, f1, f2, f3⟩ := hsucc x hx
+      exact ⟨y, hy, by rw [f1, e1], by rw [f2, e2], by rw [f3, e3]⟩
+    · rw [hh] at hg
+      split at hg
+      · next hc =>
+        simp only [Option.some.injEq] at hg
+        exact ⟨x, hx, by rw [h1, hg], by rw [h2, hc.1], by rw [h3, hc.2]⟩
+      · obtain ⟨x0, hx0, e1, e2, e3⟩ := h.defSome o db id hg
+        obtain ⟨y, hy, f1, f2, f3⟩ := hsucc x0 hx0
+        exact ⟨y, hy, by rw [f1, e1], by rw [f2, e2], by rw [f3, e3]⟩
+  · intro y hy
+    obtain ⟨x, hx, e1, e2, e3⟩ := hpred y hy
+    have hold := h.defEx x hx
+    rcases hgd y.OrganizationID y.Database with hh | ⟨f, hh, _⟩
+    · rw [hh, e2, e3]; exact hold
+    · rw [hh]; split
+      · rfl
+      · rw [e2, e3]; exact hold
+  · intro a ha b hb h1 h2 h3
+    rcases (hmem a).mp ha with rfl | ⟨ha, hane⟩
+    · rcases (hmem b).mp hb with rfl | ⟨hb, hbne⟩
+      · rfl
+      · exact absurd h3.symm (huniq b hb hbne (by rw [← h1, ho]) (by rw [← h2, hdb]))
+    · rcases (hmem b).mp hb with rfl | ⟨hb, hbne⟩
+      · exact absurd h3 (huniq a ha hane (by rw [h1, ho]) (by rw [h2, hdb]))
+      · exact h.uniq a ha b hb h1 h2 h3
+
+/-- removing the record `r` -/
+theorem inv_remove {s : St} (h : Inv s) {r : Mapping} (hr : r ∈ s.recs)
+    (s' : St) (hrecs : s'.recs = s.recs.filter (·.ID != r.ID))
+    (hidx : s'.idx = s.idx.filter (· != (r.OrganizationID, r.Database, r.ID)))
+    (hby : s'.byOrg = s.byOrg.filter (· != (r.OrganizationID, r.ID)))
+    (hbk : s'.buckets = s.buckets) (hnx : s'.nextID = s.nextID)
+    (hdefs : (s'.defs = s.defs ∧ getDefault s r.OrganizationID r.Database ≠ some r.ID) ∨
+      (∃ f, s'.defs = (setDefault s r.OrganizationID r.Database f).defs ∧
+        ∃ x ∈ s'.recs, x.ID = f ∧ x.OrganizationID = r.OrganizationID ∧ x.Database = r.Database) ∨
+      (s'.defs = (unsetDefault s r.OrganizationID r.Database).defs ∧
+        ∀ x ∈ s'.recs, ¬(x.OrganizationID = r.OrganizationID ∧ x.Database = r.Database))) :
+    Inv s' := by
+  have hmem : ∀ x, x ∈ s'.recs ↔ x ∈ s.recs ∧ x.ID ≠ r.ID := by
+    intro x; rw [hrecs]; simp [List.mem_filter]
+  have hrid : ∀ x ∈ s.recs, x.ID = r.ID → x = r := fun x hx hxr => sorted_id_inj h.sorted hx hr hxr
+  refine ⟨by rw [hrecs]; exact sorted_filter h.sorted _, ?_, ?_, by rw [hidx]; exact h.idxND.filter _, ?_,
+    by rw [hby]; exact h.byOrgND.filter _, ?_, ?_, ?_, by rw [hnx]; exact h.nextOdd, by rw [hbk]; exact h.bucketsEven⟩
+  · intro x hx; rw [hnx]; exact h.recOK x ((hmem x).mp hx).1
+  · intro o db id
+    rw [hidx]
+    simp only [List.mem_filter, bne_iff_ne, ne_eq, h.idx]
+    constructor
+    · rintro ⟨⟨x, hx, h1, h2, h3⟩, hne⟩
+      refine ⟨x, (hmem x).mpr ⟨hx, ?_⟩, h1, h2, h3⟩
+      intro hxr
+      have := hrid x hx hxr
+      subst this
+      exact hne (by rw [← h1, ← h2, ← h3])
+    · rintro ⟨x, hx, h1, h2, h3⟩
+      have := (hmem x).mp hx
+      refine ⟨⟨x, this.1, h1, h2, h3⟩, ?_⟩
+      intro hc
+      simp only [Prod.mk.injEq] at hc
+      exact this.2 (by rw [h1, hc.2.2])
+  · intro o id
+    rw [hby]
+    simp only [List.mem_filter, bne_iff_ne, ne_eq, h.byOrg]
+    constructor
+    · rintro ⟨⟨x, hx, h1, h2⟩, hne⟩
+      refine ⟨x, (hmem x).mpr ⟨hx, ?_⟩, h1, h2⟩
+      intro hxr
+      have := hrid x hx hxr
+      subst this
+      exact hne (by rw [← h1, ← h2])
+    · rintro ⟨x, hx, h1, h2⟩
+      have := (hmem x).mp hx
+      refine ⟨⟨x, this.1, h1, h2⟩, ?_⟩
+      intro hc
+      simp only [Prod.mk.injEq] at hc
+      exact this.2 (by rw [h1, hc.2])
+  · intro o db id hg
+    rcases hdefs with ⟨hd, hne⟩ | ⟨f, hd, x, hx, h1, h2, h3⟩ | ⟨hd, _⟩
+    · rw [getDefault_congr hd] at hg
+      obtain ⟨x, hx, e1, e2, e3⟩ := h.defSome o db id hg
+      refine ⟨x, (hmem x).mpr ⟨hx, ?_⟩, e1, e2, e3⟩
+      intro hxr
+      have := hrid x hx hxr
+      subst this
+      apply hne; rw [e2, e3, hg, e1]
+    · rw [getDefault_congr hd, getDefault_setDefault] at hg
+      split at hg
+      · next hc =>
+        simp only [Option.some.injEq] at hg
+        exact ⟨x, hx, by rw [h1, hg], by rw [h2, hc.1], by rw [h3, hc.2]⟩
+      · next hc =>
+        obtain ⟨x0, hx0, e1, e2, e3⟩ := h.defSome o db id hg
+        refine ⟨x0, (hmem x0).mpr ⟨hx0, ?_⟩, e1, e2, e3⟩
+        intro hxr
+        have := hrid x0 hx0 hxr
+        subst this
+        exact hc ⟨e2.symm, e3.symm⟩
+    · rw [getDefault_congr hd, getDefault_unsetDefault] at hg
+      split at hg
+      · cases hg
+      · next hc =>
+        obtain ⟨x0, hx0, e1, e2, e3⟩ := h.defSome o db id hg
+        refine ⟨x0, (hmem x0).mpr ⟨hx0, ?_⟩, e1, e2, e3⟩
+        intro hxr
+        have := hrid x0 hx0 hxr
+        subst this
+        exact hc ⟨e2.symm, e3.symm⟩
+  · intro y hy
+    have hy' := (hmem y).mp hy
+    have hold := h.defEx y hy'.1
+    rcases hdefs with ⟨hd, _⟩ | ⟨f, hd, _⟩ | ⟨hd, hnone⟩
+    · rw [getDefault_congr hd]; exact hold
+    · rw [getDefault_congr hd, getDefault_setDefault]; split; rfl; exact hold
+    · rw [getDefault_congr hd, getDefault_unsetDefault]
+      split
+      · next hc => exact absurd hc (hnone y hy)
+      · exact hold
+  · intro a ha b hb
+    exact h.uniq a ((hmem a).mp ha).1 b ((hmem b).mp hb).1
+
+end Influx.DBRP
+
+namespace Influx.DBRP
+
+theorem remove_idx {s : St} (h : Inv s) {r : Mapping} (hr : r ∈ s.recs) (s' : St)
+    (hrecs : s'.recs = s.recs.filter (·.ID != r.ID))
+    (hidx : s'.idx = s.idx.filter (· != (r.OrganizationID, r.Database, r.ID))) :
+    ∀ o db id, (o, db, id) ∈ s'.idx ↔ ∃ m ∈ s'.recs, m.ID = id ∧ m.OrganizationID = o ∧ m.Database = db := by
+  have hmem : ∀ x, x ∈ s'.recs ↔ x ∈ s.recs ∧ x.ID ≠ r.ID := by
+    intro x; rw [hrecs]; simp [List.mem_filter]
+  have hrid : ∀ x ∈ s.recs, x.ID = r.ID → x = r := fun x hx hxr => sorted_id_inj h.sorted hx hr hxr
+  intro o db id
+  rw [hidx]
+  simp only [List.mem_filter, bne_iff_ne, ne_eq, h.idx]
+  constructor
+  · rintro ⟨⟨x, hx, h1, h2, h3⟩, hne⟩
+    refine ⟨x, (hmem x).mpr ⟨hx, ?_⟩, h1, h2, h3⟩
+    intro hxr
+    have := hrid x hx hxr
+    subst this
+    exact hne (by rw [← h1, ← h2, ← h3])
+  · rintro ⟨x, hx, h1, h2, h3⟩
+    have := (hmem x).mp hx
+    refine ⟨⟨x, this.1, h1, h2, h3⟩, ?_⟩
+    intro hc
+    simp only [Prod.mk.injEq] at hc
+    exact this.2 (by rw [h1, hc.2.2])
+
+/-- the record `Update` writes: the caller's mapping with the immutable fields of the stored one -/
+def updRec (m r : Mapping) : Mapping :=
+  { m with ID := r.ID, OrganizationID := r.OrganizationID, BucketID := r.BucketID, Database := r.Database }
+
+/-- **`Update` of a stored mapping (odd id) keeps the invariant** -/
+theorem update_inv {s : St} (h : Inv s) (m : Mapping) (hodd : m.ID % 2 = 1) (hv : m.Virtual = false) :
+    Inv (update s m).1 := by
+  unfold update
+  split
+  · exact h
+  · rcases findByID_odd h (org := m.OrganizationID) hodd with ⟨r, hr, hid, horg, hf⟩ | ⟨_, hf⟩
+    · simp only [hf]
+      change Inv (if (!isDBRPUnique s (updRec m r)) = true then (s, Except.error Err.exists_) else _).1
+      split
+      · exact h
+      · next huq =>
+        have huq : isDBRPUnique s (updRec m r) = true := by simpa using huq
+        have huniq : ∀ v ∈ s.recs, v.ID ≠ r.ID → v.OrganizationID = r.OrganizationID → v.Database = r.Database →
+            v.RetentionPolicy ≠ (updRec m r).RetentionPolicy := by
+          intro v hvm hne ho hdb
+          simp only [isDBRPUnique, List.all_eq_true, Bool.or_eq_true, beq_iff_eq, bne_iff_ne, ne_eq] at huq
+          rcases huq v ((walk_mem h).mpr ⟨hvm, ho, hdb⟩) with h1 | h1
+          · exact absurd h1 hne
+          · exact h1
+        -- the state with the record replaced and the defaults untouched
+        have h1 : Inv (putRec s (updRec m r)) :=
+          inv_replace (m' := updRec m r) h hr rfl rfl rfl hv huniq _ rfl rfl rfl rfl rfl (Or.inl rfl)
+        have hmemm : updRec m r ∈ (putRec s (updRec m r)).recs := by
+          simp only [putRec]; exact (mem_insertRec h.sorted).mpr (Or.inl rfl)
+        simp only
+        split
+        · exact inv_replace (m' := updRec m r) h hr rfl rfl rfl hv huniq _ rfl rfl rfl rfl rfl
+            (Or.inr ⟨r.ID, rfl, _, hmemm, rfl, rfl, rfl⟩)
+        · split
+          · split
+            · next f hfb =>
+              obtain ⟨_, x, hx, e1, e2, e3⟩ := getFirstBut_some (s := putRec s (updRec m r)) h1.sorted h1.idx hfb
+              exact inv_replace (m' := updRec m r) h hr rfl rfl rfl hv huniq _ rfl rfl rfl rfl rfl
+                (Or.inr ⟨f, rfl, x, hx, e1, e2, e3⟩)
+            · exact h1
+          · exact h1
+    · simp only [hf]; exact h
+
+/-- **`Delete` of a stored mapping (odd id) keeps the invariant** -/
+theorem delete_inv {s : St} (h : Inv s) (org id : Nat) (hodd : id % 2 = 1) : Inv (delete s org id).1 := by
+  unfold delete
+  rcases findByID_odd h (org := org) hodd with ⟨r, hr, hid, horg, hf⟩ | ⟨_, hf⟩
+  · simp only [hf]
+    split
+    · exact h
+    · subst hid horg
+      simp only
+      -- records and index after the removal
+      have hidx3 := remove_idx h hr (byOrgDelete (idxDelete (delRec s r.ID) r.OrganizationID r.Database r.ID) r.OrganizationID r.ID) rfl rfl
+      have hs3 : Sorted (byOrgDelete (idxDelete (delRec s r.ID) r.OrganizationID r.Database r.ID) r.OrganizationID r.ID).recs :=
+        sorted_filter h.sorted _
+      by_cases hd : getDefault s r.OrganizationID r.Database = some r.ID
+      · simp only [hd, beq_self_eq_true, ↓reduceIte]
+        split
+        · next f hfb =>
+          obtain ⟨_, x, hx, e1, e2, e3⟩ := getFirstBut_some hs3 hidx3 hfb
+          exact inv_remove h hr _ rfl rfl rfl rfl rfl (Or.inr (Or.inl ⟨f, rfl, x, hx, e1, e2, e3⟩))
+        · next hfb =>
+          refine inv_remove h hr _ rfl rfl rfl rfl rfl (Or.inr (Or.inr ⟨rfl, ?_⟩))
+          intro x hx hc
+          have := getFirstBut_none hs3 hidx3 hfb x hx hc.1 hc.2
+          have hx' : x ∈ s.recs.filter (·.ID != r.ID) := hx
+          simp only [List.mem_filter, bne_iff_ne, ne_eq] at hx'
+          exact hx'.2 this
+      · have hd' : (getDefault s r.OrganizationID r.Database == some r.ID) = false := by simpa using hd
+        simp only [hd', Bool.false_eq_true, ↓reduceIte]
+        exact inv_remove h hr _ rfl rfl rfl rfl rfl (Or.inl ⟨rfl, hd⟩)
+  · simp only [hf]; exact h
 
 end Influx.DBRP
